@@ -452,3 +452,82 @@ func init() {
 	register(&Scenario{Prop: "C07", Name: "c07/headers-all-upgrades", Quick: []Bound{}, Thorough: []Bound{{0, 0}}, Body: c07Body_(true), MinHB: 1, BudgetT: 500})
 	register(&Scenario{Prop: "C07", Name: "c07/upgrade-flags", Quick: []Bound{{0, 0}}, Thorough: []Bound{{0, 0}}, Body: c07Upgrade, MinHB: 1})
 }
+
+// frame sequences: a connection's codec decodes (and encodes) many frames one after the other;
+// whatever it keeps between frames (a reused header message, a scratch buffer) must not leak
+// from one frame into the next.  Four frames with complementary sets of present fields (all
+// fields / nothing but a zero sequence number / only a text / only a body), in every order,
+// through ONE server codec and ONE client codec per header encoder; every decoded header equals
+// the header of that frame alone, every encoded frame equals the frame a fresh codec writes.
+func c07Sequences(x *X) {
+	kind := x.Choose(2)
+	encName := encNames[x.Choose(len(encNames))]
+	ps := perms(4)
+	order := ps[x.Choose(len(ps))]
+	long := c07Text(130, encName, 3)
+	hs := []hdrCase{
+		{kind: kind, seq: 300, up: []byte{0x28}, text: long, body: c07Body(130, 5)},
+		{kind: kind, seq: 0},
+		{kind: kind, seq: 1, text: "Svc.Echo"},
+		{kind: kind, seq: 0, body: []byte{9, 8, 7}},
+	}
+	if kind == 1 {
+		for i := range hs {
+			hs[i].up = nil
+			if len(hs[i].text) > 0 {
+				hs[i].body = nil // an error response carries no reply
+			}
+		}
+	}
+	we := wireEncoder(encName)
+	rec := &recMsgs{}
+	sc := rpc.NewServerCodec(bytesCodec(), encoderByName(encName), rec, true, 0)
+	cc := rpc.NewClientCodec(bytesCodec(), encoderByName(encName), rec, 0)
+	for step, i := range order {
+		h := hs[i]
+		if kind == 0 {
+			frame := mkReq(we, h.seq, h.up, h.text, h.body)
+			in := rpc.VerifNewContext(0, nil, "", "")
+			rpc.VerifSetData(in, frame)
+			err := sc.ReadRequestHeader(in)
+			if err != nil || in.Seq != h.seq || !bytes.Equal(in.Upgrade, h.up) || in.ServiceMethod != h.text || !bytes.Equal(rpc.VerifValue(in), h.body) {
+				x.Fail("C07/sequence/request-decode/"+encLabel(encName), "frame %d of the order %v (seq %d, upgrade %x, method %q, %d argument bytes) decoded by a server codec that had decoded the frames before it: err=%v seq=%d upgrade=%x method=%q args=%d bytes", step, order, h.seq, h.up, h.text, len(h.body), err, in.Seq, in.Upgrade, in.ServiceMethod, len(rpc.VerifValue(in)))
+			}
+			// encode side: the client codec writes this request after the earlier ones
+			n0 := len(rec.frames)
+			body := h.body
+			if err := cc.WriteRequest(rpc.VerifNewContext(h.seq, h.up, h.text, ""), &body); err != nil || len(rec.frames) != n0+1 {
+				x.Fail("C07/sequence/request-encode/"+encLabel(encName), "WriteRequest of frame %d failed: %v", step, err)
+			} else if got, derr := decodeMsg(we, 0, rec.frames[n0]); derr != nil || got.seq != h.seq || !bytes.Equal(got.up, h.up) || got.text != h.text || !bytes.Equal(got.body, h.body) {
+				x.Fail("C07/sequence/request-encode/"+encLabel(encName), "frame %d of the order %v written by a client codec that had written the frames before it decodes to seq=%d upgrade=%x method=%q args=%d bytes (err %v), want seq=%d upgrade=%x method=%q args=%d bytes", step, order, got.seq, got.up, got.text, len(got.body), derr, h.seq, h.up, h.text, len(h.body))
+			}
+		} else {
+			frame := mkRes(we, h.seq, h.text, h.body)
+			in := rpc.VerifNewContext(0, nil, "", "")
+			rpc.VerifSetData(in, frame)
+			err := cc.ReadResponseHeader(in)
+			if err != nil || in.Seq != h.seq || in.Error != h.text || !bytes.Equal(rpc.VerifValue(in), h.body) {
+				x.Fail("C07/sequence/response-decode/"+encLabel(encName), "frame %d of the order %v (seq %d, error %q, %d reply bytes) decoded by a client codec that had decoded the frames before it: err=%v seq=%d error=%q reply=%d bytes", step, order, h.seq, h.text, len(h.body), err, in.Seq, in.Error, len(rpc.VerifValue(in)))
+			}
+			n0 := len(rec.frames)
+			body := h.body
+			if err := sc.WriteResponse(rpc.VerifNewContext(h.seq, nil, "", h.text), &body); err != nil || len(rec.frames) != n0+1 {
+				x.Fail("C07/sequence/response-encode/"+encLabel(encName), "WriteResponse of frame %d failed: %v", step, err)
+			} else if got, derr := decodeMsg(we, 1, rec.frames[n0]); derr != nil || got.seq != h.seq || got.text != h.text || !bytes.Equal(got.body, h.body) {
+				x.Fail("C07/sequence/response-encode/"+encLabel(encName), "frame %d of the order %v written by a server codec that had written the frames before it decodes to seq=%d error=%q reply=%d bytes (err %v), want seq=%d error=%q reply=%d bytes", step, order, got.seq, got.text, len(got.body), derr, h.seq, h.text, len(h.body))
+			}
+		}
+	}
+	x.Outcome("kind=%d enc=%q order=%v", kind, encName, order)
+}
+
+func encLabel(n string) string {
+	if n == "" {
+		return "default-path"
+	}
+	return n
+}
+
+func init() {
+	register(&Scenario{Prop: "C07", Name: "c07/frame-sequences", Quick: []Bound{{0, 0}}, Thorough: []Bound{{0, 0}}, Body: c07Sequences, MinHB: 1})
+}
